@@ -1189,7 +1189,81 @@ def r24_count_protocol(facts):
                             "recursive call passes an explicit seed instead of using the child's pending delta")
             if rec is None:
                 c.bad("count:recurse-at-zero", loc(b, n), "no recursive backward into children found")
-    kinds = {callee(n).split("::")[-1] for _, n, _, _ in writes}
+    # ---- counting happens exactly when a pass starts at a node without a pending delta
+    bw = eng["backward"]
+    m = PassModel(facts)
+    n_recount = 0
+    for n2, ctx2 in walk_ctx(facts.root(bw)):
+        if n2.get("k") == "Call" and resolved(n2) == eng["propagate_consumers"]["def"]:
+            n_recount += 1
+            on_self = var_of(n2["args"][0]) == m.selfv
+            in_absent_branch = False
+            for fr in ctx2:
+                if fr[0] == "if" and fr[2] == "else":
+                    cond = strip(fr[1]["cond"])
+                    if cond.get("k") == "Let" and cond["pat"].get("k") == "Variant" and cond["pat"]["variant"] == "Some":
+                        o_, f_ = m.slot_owner(cond["e"])
+                        if o_ == m.selfv and f_ == m.f_delta:
+                            in_absent_branch = True
+                if fr[0] == "arm":
+                    pat = fr[1]["arms"][fr[2]]["pat"]
+                    if pat.get("k") == "Variant" and pat.get("adt") == OPTION and pat["variant"] == "None":
+                        o_, f_ = m.slot_owner(fr[1]["scrutinee"])
+                        if o_ == m.selfv and f_ == m.f_delta:
+                            in_absent_branch = True
+            c.check(on_self and in_absent_branch, "count:recount-only-at-root", loc(bw, n2),
+                    "consumers are (re)counted only when the pass starts at a node that has no pending delta (i.e. at the root of a pass)",
+                    "propagate_consumers is called from backward outside the 'no pending delta' branch: nodes reached by the recursion are "
+                    "counted again in the middle of a pass")
+    c.check(n_recount >= 1, "count:recount-present", "%s:%d" % (F.rel(bw["file"]), bw["sp"][0]),
+            "backward counts consumers when it starts a pass", "backward never counts consumers: decrements would underflow")
+    # ---- slot i of the derivative's result is delivered to child i
+    n_child = 0
+    for n2, ctx2 in walk_ctx(facts.root(bw)):
+        if n2.get("k") == "Call" and callee(n2) in ("core::ops::index::Index::index",) and len(n2["args"]) == 2:
+            r_, ch = field_chain(n2["args"][0])
+            if ch == [m.f_edges] and var_of(r_) == m.selfv:
+                n_child += 1
+                iv = var_of(n2["args"][1]) if peel(n2["args"][1]).get("k") in ("VarRef", "UpvarRef") else None
+                ok = False
+                why = "children are indexed with an expression that is not the position of the slot"
+                if iv:
+                    bnd = m.binds.get(iv)
+                    if bnd and bnd[0] == "pat" and [p for p in bnd[2] if p != "*"][-1:] == ["0"]:
+                        # bound as the index component of `.enumerate()` over the closure result
+                        src = bnd[1]
+                        has_enum = False
+                        vs = set()
+                        todo = [src]
+                        seen = set()
+                        while todo:
+                            e_ = todo.pop()
+                            for x in walk(e_):
+                                if x.get("k") == "Call" and callee(x) == "core::iter::traits::iterator::Iterator::enumerate":
+                                    has_enum = True
+                                if x.get("k") in ("VarRef", "UpvarRef") and x["v"] not in seen:
+                                    seen.add(x["v"])
+                                    b2 = m.binds.get(x["v"])
+                                    if b2 and b2[1] is not None:
+                                        todo.append(b2[1])
+                        sites = [s for s in invocation_sites(facts) if s[0]["def"] == bw["def"]]
+                        from_inv = bool(sites) and any(any(y is sites[0][1] for y in walk(m.binds[v][1])) for v in seen if v in m.binds and m.binds[v][1] is not None)
+                        if has_enum and from_inv:
+                            ok = True
+                        else:
+                            why = "the child index is not the enumerate() position over the derivative's result vector"
+                c.check(ok, "engine:slot-child-alignment", loc(bw, n2),
+                        "slot i of the derivative's result is delivered to self.children[i] (index = enumerate position)", why)
+    if n_child == 0:
+        # accepted alternative: children zipped with the result vector
+        zipped = False
+        for n2 in walk(facts.root(bw)):
+            if n2.get("k") == "Call" and callee(n2) == "core::iter::traits::iterator::Iterator::zip":
+                r0, c0 = field_chain(n2["args"][0])
+                if c0 == [m.f_edges] or any(x.get("k") == "Field" and x.get("name") == m.f_edges for x in walk(n2["args"][0])):
+                    zipped = True
+        c.check(zipped, "engine:slot-child-alignment", "%s:%d" % (F.rel(bw["file"]), bw["sp"][0]),
+                "children are zipped with the derivative's result vector", "cannot find how result slots are matched with children")
     return c
 
 
